@@ -135,7 +135,6 @@ Definition icmp4_process (info : bool) (p : slice) : res unit :=
 (* ---------------------------------------------------------------- ICMPv6 *)
 Record icmp6_env := mkIcmp6Env {
   ie_debug : bool;            (* Logger6.IsDebug(): the typed views are logged *)
-  ie_src_unspecified : bool;  (* IPv6 source is :: (duplicate address detection) *)
   ie_ra_processed : bool;     (* the RA rate limiter lets this one through and frame.Host != nil *)
   ie_hunting : bool           (* non-empty hunt list: the RA wakes the spoof loops up *)
 }.
@@ -153,21 +152,35 @@ Definition is_global_unicast6 (a : bytes) : bool :=
   negb ((nth 0 a 0 =? 254) && (N.land (nth 1 a 0) 192 =? 128)) &&
   negb (forallb (fun b => b =? 0) (firstn 15 a) && (nth 15 a 0 =? 1)).
 
+(* pkt.IP6(): nil unless the frame carries an IPv6 header (Parse classifies an IPv4 packet with
+   protocol 58 as PayloadICMP6 too); IP6.IsValid (layer_ip6.go:21): len >= 40 && 40+PayloadLen <= len *)
+Definition ip6_view (o : option slice) : slice := match o with Some v => v | None => mkSlice [] 0 end.
+Definition ip6_is_valid (v : slice) : res bool :=
+  if Nat.ltb (len v) 40 then Ok false
+  else (pl <- be16_at v 4 ;; Ok (Nat.leb (N.to_nat pl + 40) (len v)))%res.
+Definition ip6_src (v : slice) : res bytes := (s <- sl v 8 24 ;; Ok (view s))%res.
+Definition ip6_dst (v : slice) : res bytes := (s <- sl v 24 40 ;; Ok (view s))%res.
+Definition ip6_log (v : slice) : res unit := (_ <- ip6_src v ;; _ <- ip6_dst v ;; Ok tt)%res.
+
 Section ICMP6.
   Variable lbl_ok : bytes -> bool.
 
-  Definition icmp6_process (fuel : nat) (e : icmp6_env) (p : slice) : res unit :=
+  Definition icmp6_process (fuel : nat) (e : icmp6_env) (ip6 : option slice) (p : slice) : res unit :=
+    let v := ip6_view ip6 in
+    (ok6 <- ip6_is_valid v ;;          (* gate added by d9f9e28: no IPv6 header, no processing *)
+     if negb ok6 then Err EFrameLen else
     if Nat.ltb (len p) 8 then Err EFrameLen
     else
       (t <- idx p 0 ;;
+       _ <- when (ie_debug e && negb (t =? 134)) (ip6_log v) ;;
        if t =? 136 then        (* neighbor advertisement *)
          (if Nat.ltb (len p) 24 then Err EFrameLen
           else
-            _ <- when (ie_debug e) (_ <- idx p 1 ;; _ <- idx p 4 ;; _ <- sl p 8 24 ;; lla_option_at p 24 2) ;;
+            _ <- when (ie_debug e) (_ <- ip6_src v ;; _ <- idx p 1 ;; _ <- idx p 4 ;; _ <- sl p 8 24 ;; lla_option_at p 24 2) ;;
             f <- idx p 4 ;;
             if negb (N.land f 32 =? 0) && (N.land f 64 =? 0) then
               (* Override && !Solicited: TargetLLA() must be there *)
-              (_ <- when (ie_debug e) (_ <- sl p 8 24 ;; lla_option_at p 24 2) ;;
+              (_ <- when (ie_debug e) (_ <- ip6_log v ;; _ <- sl p 8 24 ;; lla_option_at p 24 2) ;;
                if Nat.ltb (len p) 32 then Err EInvalidMAC
                else a <- idx p 24 ;; b <- idx p 25 ;;
                     if negb (a =? 2) || negb (b =? 1) then Err EInvalidMAC
@@ -176,29 +189,33 @@ Section ICMP6.
        else if t =? 135 then   (* neighbor solicitation *)
          (if Nat.ltb (len p) 24 then Err EFrameLen
           else
-            _ <- when (ie_debug e) (_ <- idx p 1 ;; _ <- sl p 8 24 ;; lla_option_at p 24 1) ;;
-            if ie_src_unspecified e then when (ie_debug e) (_ <- sl p 8 24 ;; Ok tt)
+            _ <- when (ie_debug e) (_ <- ip6_src v ;; _ <- idx p 1 ;; _ <- sl p 8 24 ;; lla_option_at p 24 1) ;;
+            src <- ip6_src v ;;                                 (* ip6Frame.Src().IsUnspecified() *)
+            if forallb (fun b => b =? 0) src then when (ie_debug e) (_ <- sl p 8 24 ;; ip6_log v)
             else
               tgt <- sl p 8 24 ;;
-              if is_global_unicast6 (view tgt) then _ <- sl p 8 24 ;; Ok tt   (* ICMP6SendNeighbourSolicitation(target) *)
+              if is_global_unicast6 (view tgt) then _ <- ip6_dst v ;; _ <- sl p 8 24 ;; Ok tt   (* ICMP6SendNeighbourSolicitation(target) *)
               else Ok tt)
        else if t =? 134 then   (* router advertisement *)
          (if Nat.ltb (len p) 16 then Err EFrameLen
           else if negb (ie_ra_processed e) then Ok tt
           else
             _ <- ra_options lbl_ok fuel p ;;
+            _ <- ip6_src v ;;                                   (* findOrCreateRouter(mac, ip6Frame.Src()) *)
+            _ <- when (ie_debug e) (ip6_log v) ;;
             _ <- idx p 5 ;; _ <- idx p 4 ;; _ <- be16_at p 6 ;; _ <- be32_at p 8 ;; _ <- be32_at p 12 ;;
             Ok tt)
        else if t =? 133 then   (* router solicitation: IsValid len >= 8 && type; debug: SourceLLA *)
          when (ie_debug e)
-           (_ <- idx p 1 ;; lla_option_at p 8 1)       (* SourceLLA as repaired by 24e521d: p[10:16] *)
-       else if t =? 129 then when (ie_debug e) (echo_fastlog p)
-       else if t =? 128 then when (ie_debug e) (echo_fastlog p)
+           (_ <- ip6_src v ;; _ <- idx p 1 ;; lla_option_at p 8 1)       (* SourceLLA as repaired by 24e521d: p[10:16] *)
+       else if t =? 129 then when (ie_debug e) (_ <- ip6_src v ;; echo_fastlog p)
+       else if t =? 128 then when (ie_debug e) (_ <- ip6_log v ;; echo_fastlog p)
        else if t =? 137 then   (* redirect: IsValid len >= 40; debug: String() *)
          (if Nat.ltb (len p) 40 then Err EFrameLen
-          else when (ie_debug e) (_ <- idx p 1 ;; _ <- sl p 8 24 ;; _ <- lla_option_at p 40 2 ;; _ <- sl p 24 40 ;; Ok tt))
-       else if (t =? 143) || (t =? 131) || (t =? 130) || (t =? 1) then Ok tt
-       else Err EParseFrame)%res.
+          else when (ie_debug e) (_ <- ip6_src v ;; _ <- idx p 1 ;; _ <- sl p 8 24 ;; _ <- lla_option_at p 40 2 ;; _ <- sl p 24 40 ;; Ok tt))
+       else if (t =? 143) || (t =? 131) || (t =? 130) then when (ie_debug e) (_ <- ip6_src v ;; Ok tt)
+       else if t =? 1 then when (ie_debug e) (ip6_log v)
+       else _ <- ip6_src v ;; Err EParseFrame))%res.    (* "type not implemented from ip=..." *)
 End ICMP6.
 
 (* ---------------------------------------------------------------- DHCPv4 *)
